@@ -228,8 +228,13 @@ impl Report {
     }
     /// `replay` must be a single line that identifies the failing input completely
     pub fn fail(&mut self, prop: &str, replay: String) {
-        if self.fails.len() < 200 {
+        // capped per property (not globally): a flood of failures of one property must not crowd
+        // out the failing inputs of another one found later in the same campaign
+        let n = self.fails.iter().filter(|(p, _)| p == prop).count();
+        if n < 60 {
             self.fails.push((prop.to_string(), replay.replace('\n', " ")));
+        } else {
+            *self.hist.entry(format!("{}.failures_not_listed", prop)).or_insert(0) += 1;
         }
     }
 }
